@@ -74,9 +74,27 @@ fn by_value(is: &[Instruction]) -> Value {
     Value::Array(is.iter().map(|i| c02::to_abs_with(i, &mut AbsCtx { mode: ExprMode::Value, ph: &mut ph })).collect())
 }
 
-/// a CALL immediate that prints with a leading minus or as a sum of two parts
+/// the instructions and, recursively, the instructions of their bodies
+fn flatten(is: &[Instruction], out: &mut Vec<Instruction>) {
+    for i in is {
+        out.push(i.clone());
+        match i {
+            Instruction::CalibrationDefinition(d) => flatten(&d.instructions, out),
+            Instruction::MeasureCalibrationDefinition(d) => flatten(&d.instructions, out),
+            Instruction::CircuitDefinition(d) => flatten(&d.instructions, out),
+            _ => {}
+        }
+    }
+}
+fn flat(is: &[Instruction]) -> Vec<Instruction> {
+    let mut out = vec![];
+    flatten(is, &mut out);
+    out
+}
+
+/// a CALL immediate that prints with a leading minus or as a sum of two parts (anywhere, bodies included)
 fn call_immediate_signed(is: &[Instruction]) -> bool {
-    is.iter().any(|i| match i {
+    flat(is).iter().any(|i| match i {
         Instruction::Call(c) => c.arguments().iter().any(|a| match a {
             UnresolvedCallArgument::Immediate(v) => {
                 (v.re != 0.0 && v.im != 0.0) || (v.re < 0.0) || (v.im < 0.0)
@@ -90,8 +108,9 @@ fn call_immediate_signed(is: &[Instruction]) -> bool {
 /// DELAY without frame names, re-parsed with more qubits than it was built with (the parser took the first
 /// tokens of the duration as qubits)
 fn delay_grew_qubits(built: &[Instruction], reparsed: &[Instruction]) -> bool {
+    let (built, reparsed) = (flat(built), flat(reparsed));
     built.len() == reparsed.len()
-        && built.iter().zip(reparsed).any(|(a, b)| match (a, b) {
+        && built.iter().zip(reparsed.iter()).any(|(a, b)| match (a, b) {
             (Instruction::Delay(x), Instruction::Delay(y)) => {
                 x.frame_names.is_empty() && y.frame_names.is_empty() && y.qubits.len() > x.qubits.len()
                     && y.qubits[..x.qubits.len()] == x.qubits[..]
@@ -427,11 +446,11 @@ pub fn drive(ctx: &Ctx) -> Summary {
         let instr = c02::from_abs_with(&v, &mut ph);
         let mut o = Outcome::ok(nontrivial(&v));
         o.count(v["k"].as_str().unwrap());
-        util::emit(&mut out, &json!({"ev": "value", "v": v}));
+        util::emit(&mut out, &json!({"ev": "reset", "fam": "value", "v": v}));
         let verdict = check_value(&mut o, std::slice::from_ref(&instr), has_ph, "random value");
         let one = instr.to_quil_or_debug();
         util::emit(&mut out, &json!({"ev": "vprinted", "ok": !verdict.fails,
-                                     "text": if verdict.fails { Value::Null } else { json!(instr.to_quil().unwrap_or_default()) },
+                                     "text": if verdict.fails { json!("") } else { json!(instr.to_quil().unwrap_or_default()) },
                                      "debug_len": one.len()}));
         util::emit(&mut out, &json!({"ev": "vdone", "fails": verdict.fails, "parsed": verdict.parsed, "equivalent": verdict.equivalent}));
         o.count_n("events", 3);
